@@ -5,7 +5,14 @@ not_applicable with the reason recorded in tools/checks.json["unclaimed"] (or a 
 import json, os, sys
 root = os.path.dirname(os.path.dirname(os.path.abspath(__file__)))
 spec = json.load(open(os.path.join(root, "tools", "checks.json")))
+spec["checks"] = {}
+for fn in sorted(os.listdir(os.path.join(root, "tools", "checks.d"))):
+    if fn.endswith(".json"):
+        spec["checks"][fn[:-5]] = json.load(open(os.path.join(root, "tools", "checks.d", fn)))
 props = [json.loads(l)["id"] for l in open(os.path.join(root, "properties.jsonl")) if l.strip()]
+for pid in list(spec["checks"]):
+    if not os.path.isdir(os.path.join(root, "checks", pid.lower())):
+        spec["checks"].pop(pid)
 checks = []
 for pid in props:
     c = spec["checks"].get(pid)
@@ -17,13 +24,15 @@ for pid in props:
         "thorough_cmd": f"./check {pid} thorough",
         "evidence_file": f"/verif/evidence/{pid}.json",
         "replay_cmd_template": f"./check {pid} --replay {{path}}",
-        "engine": c["engine"],
+        "engine": c.get("engine", "sweep"),
         "level_claimed": {"category": c["level"], "text": c["text"], "design_ref": f"DESIGN.md §7 {pid}"},
         "level_note": c["note"],
         "technique": c["technique"],
     })
 na = []
 for pid in props:
+    if not os.path.isdir(os.path.join(root, "checks", pid.lower())):
+        spec["checks"].pop(pid, None)
     if pid not in spec["checks"]:
         na.append({"property_id": pid, "reason": spec.get("unclaimed", {}).get(pid, spec["unclaimed_default"])})
 m = {
